@@ -43,6 +43,32 @@ class Obj:
         return "Obj(a=%r, b=%r)" % (self.a, self.b)
 
 
+class StrictEq:
+    """A strict value object: comparing it with anything but its own kind is an error."""
+
+    def __eq__(self, other):
+        if not isinstance(other, StrictEq):
+            raise TypeError("StrictEq compared with %s" % type(other).__name__)
+        return True
+
+    __hash__ = None
+
+    def __repr__(self):
+        return "StrictEq()"
+
+
+class WeirdEq:
+    """Equality gives an object without a truth value (element-wise comparison, numpy style)."""
+
+    def __eq__(self, other):
+        return WeirdBool()
+
+    __hash__ = None
+
+    def __repr__(self):
+        return "WeirdEq()"
+
+
 class WeirdBool:
     """An object without a truth value (like a numpy array)."""
 
@@ -173,14 +199,16 @@ def oracle(expr_src, env, closure, glob):
 
 class Scratch:
     """A scratch directory with generated modules; removed on close."""
+    counter = 0
 
     def __init__(self):
         self.dir = tempfile.mkdtemp(prefix="verif_expr_")
         self.n = 0
 
     def module(self, src):
+        Scratch.counter += 1
         self.n += 1
-        name = "verif_expr_mod_%d_%d" % (os.getpid(), self.n)
+        name = "verif_expr_mod_%d_%d" % (os.getpid(), Scratch.counter)      # a fresh module name for every generated module
         path = os.path.join(self.dir, name + ".py")
         with open(path, "w") as fh:
             fh.write(src)
@@ -380,6 +408,10 @@ def special_value(v):
         return v
     if v == "WEIRDBOOL":
         return WeirdBool()
+    if v == "STRICTEQ":
+        return StrictEq()
+    if v == "WEIRDEQ":
+        return WeirdEq()
     if v == "FUNC":
         return make_env
     if v == "LAMBDA":
@@ -541,6 +573,10 @@ def run_batch(cases, glob_src=DEFAULT_GLOB_SRC, closure_value=5, normalise_locat
         except BaseException as e:  # noqa: B902
             _rp.inspect_decorator = orig_inspect
             return [{"define": ["raise", type(e).__name__, str(e)[:200]], "src": src} for _ in cases]
+        for i, c in enumerate(cases):
+            # the program changes the limits of its Repr object after the contracts exist
+            for k, v in (c.get("a_repr_after") or {}).items():
+                setattr(reprs[i], k, v)
         glob = dict(vars(mod))
         src_lines = src.split("\n")
         orig_visitor = _rc.Visitor
